@@ -1,5 +1,6 @@
 (* Properties/C02.v -- statements of property C02 with their proofs by reference. *)
-From PyTRS Require Import Spec.C02Spec Proofs.C02.Main.
+From Coq Require Import List.
+From PyTRS Require Import Engine.Regex Model.Trs Model.Aliquot Model.TractParse Spec.Geometry Spec.C02Spec Proofs.C02.Main Proofs.C02.Extract.
 
 Theorem C02_tiling : C02_statement.
 Proof. exact C02_tiling_proof. Qed.
@@ -20,3 +21,10 @@ Print Assumptions C02_disjoint.
 Theorem C02_depth0_refuted : C02_depth0_refuted_statement.
 Proof. exact C02_depth0_refuted_proof. Qed.
 Print Assumptions C02_depth0_refuted.
+
+(* the chains the theorems above quantify over are what the tract parser really produces: every block TractParser cuts out of ANY text
+   yields a non-empty list of documented components without ALL -- a valid chain (the only other block it parses is the literal ALL) *)
+Theorem C02_extracted_blocks_valid : forall fuel t r, extract_aliquots fuel t nil = Ok r ->
+  Forall (fun b => exists comps, comps_of_strs (components_of_text b) = Some comps /\ valid_chain (rev comps)) (snd r).
+Proof. exact extracted_blocks_valid. Qed.
+Print Assumptions C02_extracted_blocks_valid.
